@@ -1865,8 +1865,10 @@ impl<T: PPGEvaluatorStrategy> PPGEvaluator<T> {
             .map(|x| x.to_string())
             .collect();
 
-        let mut best = None;
+        let mut best: Option<String> = None;
         let mut best_count = 0;
+        // outputs of the best candidate that the missing job does not produce
+        let mut best_foreign = 0;
         let query = format!("!!!{}", downstream_id);
         for history_entry in history.keys() {
             if history_entry.ends_with(&query) {
@@ -1884,8 +1886,22 @@ impl<T: PPGEvaluatorStrategy> PPGEvaluator<T> {
                 let overlap = historical_upstream_outputs
                     .intersection(&missing_upstream_outputs)
                     .count();
-                if overlap > best_count {
+                // when an output moved from one job to another, several old jobs share
+                // outputs with the missing one. Prefer the closest one, and never let the
+                // iteration order of the history decide.
+                let foreign = historical_upstream_outputs.len() - overlap;
+                let better = overlap > best_count
+                    || (overlap > 0
+                        && overlap == best_count
+                        && match &best {
+                            Some(b) => {
+                                (foreign, historical_upstream_id) < (best_foreign, b.as_str())
+                            }
+                            None => true,
+                        });
+                if better {
                     best_count = overlap;
+                    best_foreign = foreign;
                     best = Some(historical_upstream_id.to_string())
                 }
             }
